@@ -356,6 +356,22 @@ def run_impl_(c):
             return out
         if op == 'hist':
             return run_history(c)
+        if op == 'samplecall':
+            S = mk(c['s'])
+            ss = snap(S)
+            fv = c['fill']
+            if isinstance(fv, dict):
+                fv = {'list2': [1.0, 2.0], 'array2': np.array([1.0, 2.0]), 'tuple3': (1.0, 2.0, 3.0)}[fv['badshape']]
+            else:
+                fv = fill_arg(fv)
+            try:
+                v = S.sample(np.array([fl(x) for x in c['at']], dtype=float), method=call_method(c['method']),
+                             fill_value=fv, waveunit=c['unit'])
+                out = {'value': np.asarray(v, dtype=float).tolist()}
+            except Exception as e:
+                out = {'err': type(e).__name__}
+            out['unchanged'] = snap(S) == ss
+            return out
         if op == 'call':
             A, B = mk(c['a']), mk(c['b'])
             sa, sb = snap(A), snap(B)
@@ -685,6 +701,10 @@ def encode(c):
     op = c['op']
     if op in ('hist', 'big'):
         return None
+    if op == 'samplecall':
+        fe = [2] if isinstance(c['fill'], dict) else enc_fill(c['fill'])
+        return ([9, METHCODE.get(c['method'], 3), UNITS.index(c['unit'])] + fe + enc_spec(c['s'])
+                + C.enc_list([F(x) for x in c['at']], C.enc_q))
     if op == 'call':
         return ([7, METHCODE.get(c['method'], 3), OPS.index(c['o'])] + enc_sarg(c['sampling']) + enc_fill(c['fill'])
                 + enc_spec(c['a']) + enc_spec(c['b']))
@@ -723,6 +743,8 @@ def decode(c, ints):
         return {'err': C.ERRNAMES[rd.z()]}
     if c['op'] == 'sample':
         return {'value': rd.lst(rd.q)}
+    if c['op'] == 'samplecall':
+        return {'value': rd.lst(lambda: read_xval(rd))}
     wu, vu = UNITS[rd.z()], VUNITS[rd.z()]
     wave = rd.lst(rd.q)
     if c['op'] == 'ctor':
@@ -968,6 +990,8 @@ def oracle(c, impl):
         return None
     if op == 'big':
         return oracle_big(c, impl)
+    if op == 'samplecall':
+        return None      # refusal paths and spline kinds: decided by the model (compare); operands untouched is checked above
     if op == 'call':
         # argument forms outside the documented ones are not pinned by the property: the model decides them (compare);
         # here only: operands untouched (checked above) and a returned result is a new object
@@ -1142,6 +1166,21 @@ def compare(c, impl, model):
     op = c['op']
     if op == 'call':
         return compare_call(c, impl, model)
+    if op == 'samplecall':
+        if ('err' in impl) != ('err' in model) or impl.get('err') != model.get('err'):
+            return f'impl {impl.get("err", "returned values")} model {model.get("err", "returned values")}'
+        if 'err' in impl:
+            return None
+        if len(impl['value']) != len(model['value']):
+            return 'lengths differ'
+        w, v, exact = physical(c['s'], c['unit'])
+        for i, (x, mv) in enumerate(zip(impl['value'], model['value'])):
+            xq = F(c['at'][i])
+            if not exact and w and any(abs(xq - e) <= EDGE * abs(e) for e in (w[0], w[-1])):
+                continue
+            if not check_value(x, mv, False, max([abs(t) for t in v] + [F(1)])):
+                return f'sample[{i}]: impl {x} model {mv}'
+        return None
     if 'err' in model and c.get('refl') and op in ('scalar', 'vector') and 'err' not in impl:
         return None     # a reflected form that works is judged by the oracle alone (the property does not pin TypeError)
     if ('err' in impl) != ('err' in model):
@@ -1635,6 +1674,16 @@ def gen_sample(rng):
     return {'op': 'sample', 's': s, 'unit': unit, 'at': [str(x) for x in at], 'fill': rnd_fill(rng)}
 
 
+def gen_samplecall(rng):
+    c = gen_sample(rng)
+    n = rng.choice([0, 1, 2, 3, 4, len(c['s']['wave'])])
+    c['s']['wave'], c['s']['value'] = c['s']['wave'][:n], c['s']['value'][:n]
+    c.update(op='samplecall', method=rng.choice(['linear', 'quadratic', 'cubic', 'cubic', 'foo', 'None']))
+    if rng.random() < 0.25:
+        c['fill'] = {'badshape': rng.choice(['list2', 'array2', 'tuple3'])}
+    return c
+
+
 def gen_ctor(rng):
     n = rng.randint(1, 5)
     w = rnd_grid(rng, dy(rng, 1, 9, 2), n)
@@ -1676,7 +1725,7 @@ def generate(rng, tier):
         elif t < 0.90:
             yield gen_other(rng)
         elif t < 0.96:
-            yield gen_sample(rng)
+            yield gen_sample(rng) if rng.random() < 0.6 else gen_samplecall(rng)
         else:
             yield gen_ctor(rng)
 
@@ -1697,7 +1746,7 @@ def is_storage_case(c):
 
 
 def nontrivial(c):
-    if c['op'] in ('hist', 'big', 'call'):
+    if c['op'] in ('hist', 'big', 'call', 'samplecall'):
         return True
     if c['op'] == 'spec':
         return not (c['a']['wave'] == c['b']['wave'] and c['a']['wu'] == c['b']['wu'])
